@@ -14,7 +14,6 @@ import (
 	"log"
 	"strings"
 	"testing"
-	"time"
 
 	"github.com/go-logr/logr"
 	"google.golang.org/grpc"
@@ -85,7 +84,7 @@ func c20Interceptor(o *c20model.Obs) grpc.UnaryClientInterceptor {
 			}
 		}
 		if dl, ok := ctx.Deadline(); ok {
-			o.Wire.Timeout = time.Until(dl)
+			o.Wire.Timeout, o.Elapsed = c20model.Left(dl)
 		} else {
 			o.NoDeadline = true
 		}
